@@ -100,7 +100,87 @@ fn strictness(spec: &OptSpec, id: Id) -> Strict {
     }
 }
 
+/// `cargo_helper("pretty", ..)` (what `#[bpaf(options("pretty"))]` expands to): the cargo command
+/// word is looked for in front of the line; data right of `--` spelled like it stays data
+fn cargo_helper_and_separator(case: &mut Case) {
+    let mut rng = case.rng(12);
+    let v = Spec::Item(Item {
+        id: 1,
+        names: Names::short('v'),
+        help: None,
+        leaf: Leaf::Switch,
+    });
+    let files = Spec::wrap(
+        W::Many { catch: false },
+        3,
+        Spec::Item(Item {
+            id: 2,
+            names: Names::default(),
+            help: None,
+            leaf: Leaf::Pos {
+                ty: Ty::Str,
+                metavar: "FILE".into(),
+                strict: Strict::Any,
+            },
+        }),
+    );
+    let mut spec = OptSpec::plain(Spec::Seq(vec![v, files]));
+    spec.cargo = Some("pretty".to_string());
+    let b = Bench::new(case, spec);
+    let to = |xs: &[&str]| -> Vec<Vec<u8>> { xs.iter().map(|x| x.as_bytes().to_vec()).collect() };
+    // (argv, the words the positional must deliver, signature when it does not)
+    let cases: Vec<(Vec<Vec<u8>>, Vec<&str>, &str)> = vec![
+        (
+            to(&["-v", "--", "a", "pretty"]),
+            vec!["a", "pretty"],
+            "separator:cargo-helper-drops-a-later-data-item",
+        ),
+        (
+            to(&["pretty", "-v", "--", "pretty", "b"]),
+            vec!["pretty", "b"],
+            "separator:cargo-helper-drops-a-later-data-item",
+        ),
+        (
+            to(&["--", "pretty", "a"]),
+            vec!["pretty", "a"],
+            "separator:cargo-helper-takes-the-first-data-item-for-the-command-word",
+        ),
+    ];
+    let (argv, want, sig) = &cases[rng.below(cases.len())];
+    let (out, _) = b.run(case, argv, "cargo-helper-and-separator");
+    let ok = match &out {
+        crate::outcome::Outcome::Value(v) => {
+            let mut leaves = Vec::new();
+            v.byte_leaves(&mut leaves);
+            let got: Vec<String> = leaves
+                .iter()
+                .map(|l| String::from_utf8_lossy(l).to_string())
+                .collect();
+            got == want.iter().map(|w| w.to_string()).collect::<Vec<_>>()
+        }
+        crate::outcome::Outcome::Panic(_) | crate::outcome::Outcome::FuelExhausted => true,
+        _ => false,
+    };
+    if !ok {
+        case.rep.violation(
+            sig,
+            "separator",
+            case.index,
+            b.detail(
+                argv,
+                "cargo-helper-and-separator",
+                &format!("the words {:?} delivered to FILE", want),
+                &out,
+            ),
+        );
+    }
+}
+
 pub fn run_case(case: &mut Case) {
+    if case.index % 32 == 21 {
+        cargo_helper_and_separator(case);
+        return;
+    }
     let mut rng = case.rng(0);
     let mut o = GenOpts::general();
     o.hidden = false;
